@@ -84,6 +84,13 @@ func (f *FnVC) lookup(st *State, x *ssa.Lookup) {
 		return
 	}
 	f.guardedObjCheck(st, m, false, x.Pos())
+	// contract hook: `at-call maplookup: assert ...` with arg0 = map, arg1 = key (also `maplookup:<field>` for a map field)
+	if f.Ct != nil && len(f.Ct.AtCalls) > 0 {
+		f.noteSiteRaw(st, "maplookup", []Val{m, k}, x.Pos())
+		if fn := sourceFieldName(x.X); fn != "" {
+			f.noteSiteRaw(st, "maplookup:"+fn, []Val{m, k}, x.Pos())
+		}
+	}
 	kt := f.mapKey(k)
 	has := and(not(eq(m.T, Term{"0", SRef})), f.mapHas(st, m.T, mt, kt))
 	v := ite(has, f.mapVal(st, m.T, mt, kt), f.TE.Zero(mt.Elem()))
